@@ -360,6 +360,23 @@ Section Endpoint.
                  /\ forall q, run fuel cs e body q = RFall q \/ run fuel cs e body q = RReturn q
     end.
 
+  Lemma m_other : forall p k, matches e p [MOther k] = e_other e k p.
+  Proof. intros. cbn [matches forallb match_one]. apply andb_true_r. Qed.
+
+  Lemma qos_conn_run : forall call rs p,
+    go cs e call (qos_conn_rules ec c ++ rs) p =
+    if is_normal ec && ec_qos_conn ec && over_conn c e p then RDone FReject p else go cs e call rs p.
+  Proof.
+    intros call rs p. unfold qos_conn_rules, over_conn.
+    destruct (is_normal ec && ec_qos_conn ec); [|reflexivity]. cbn [andb].
+    destruct (c_flavor c); cbn [app go ir_match ir_action mk].
+    - cbn [matches forallb match_one]. rewrite xorb_false_l, andb_true_r.
+      destruct (N.eqb (pk_proto p) 6 && e_other e O_TCP_SYN p && e_other e O_CONN_OVER p) eqn:E.
+      + rewrite <- andb_assoc in E. rewrite E. reflexivity.
+      + rewrite <- andb_assoc in E. rewrite E. reflexivity.
+    - rewrite m_other. destruct (e_other e O_CONN_OVER p); reflexivity.
+  Qed.
+
   Lemma failsafe_run : forall f rs p, failsafe_ok (S (S f)) ->
     go cs e (run (S (S f)) cs e) ((match ec_failsafe ec with Some fs => [mk [] (AJump fs)] | None => [] end) ++ rs) p
     = go cs e (run (S (S f)) cs e) rs p.
@@ -369,20 +386,18 @@ Section Endpoint.
     destruct (Hb p) as [E|E]; rewrite E; reflexivity.
   Qed.
 
-  Theorem endpoint_exact : forall f tiers profiles p,
+  Theorem endpoint_tail_exact : forall f tiers profiles p,
     ec_type ec = TNormal ->
     tiers_in_cs tiers -> profiles_in_cs profiles -> failsafe_ok (S (S f)) ->
     wfp p -> entry_mark_ok c p = true ->
-    ok_result ec c (expected ec (e_sets e) tiers profiles p) p
-      (run (S (S (S f))) cs e (endpoint_rules ec c tiers profiles) p) = true.
+    ok_result ec c (expected_tail ec c e tiers profiles p) p
+      (go cs e (run (S (S f)) cs e) (endpoint_tail ec c tiers profiles) p) = true.
   Proof.
     intros f tiers profiles p Ht Hti Hpi Hfs Hw Hd.
     assert (Hu : is_untracked ec = false) by (unfold is_untracked; rewrite Ht; reflexivity).
     assert (Hn : is_normal ec = true) by (unfold is_normal; rewrite Ht; reflexivity).
     assert (Hfw : is_forward ec = false) by (unfold is_forward; rewrite Ht; reflexivity).
-    unfold endpoint_rules, expected. rewrite Ht, Hu. cbn [run negb andb].
-    destruct (ec_admin_up ec); cbn [negb].
-    2:{ rewrite go_deny by reflexivity. cbn [ok_result]. rewrite deny_final_fin, packet_eqb_unmarked_of_unmark; reflexivity. }
+    unfold endpoint_tail, expected_tail, expected_verdict. rewrite Ht, Hu. cbn [negb andb].
     rewrite conntrack_run by exact Hu.
     destruct (ct_in p [CtRelated; CtEstablished]).
     { destruct (ec_allow ec) eqn:Ea; cbn [ok_result]; rewrite Ea.
@@ -390,6 +405,9 @@ Section Endpoint.
       - cbn [pk_mark set_mark]. rewrite (set_accept_has c F). cbn [andb]. apply packet_eqb_unmarked_of_unmark. reflexivity. }
     destruct (ec_ct_invalid ec && ct_in p [CtInvalid]).
     { cbn [ok_result]. rewrite deny_final_fin, packet_eqb_unmarked_of_unmark; reflexivity. }
+    rewrite qos_conn_run.
+    destruct (is_normal ec && ec_qos_conn ec && over_conn c e p).
+    { cbn [ok_result]. apply packet_eqb_unmarked_of_unmark. reflexivity. }
     rewrite (failsafe_run f _ p Hfs).
     rewrite Hn, Hfw, andb_false_r. cbn [app]. fold final_rules.
     unfold AClearMark, ASetMaskedMark. rewrite go_mark by reflexivity.
@@ -411,20 +429,18 @@ Section Endpoint.
       apply packet_eqb_unmarked_of_unmark. congruence.
   Qed.
   (* the forward chain of a host endpoint: no profiles; allowed outright when no tier applies *)
-  Theorem forward_exact : forall f tiers profiles p,
+  Theorem forward_tail_exact : forall f tiers profiles p,
     ec_type ec = TForward ->
     tiers_in_cs tiers -> failsafe_ok (S (S f)) ->
     wfp p -> entry_mark_ok c p = true ->
-    ok_result ec c (expected ec (e_sets e) tiers profiles p) p
-      (run (S (S (S f))) cs e (endpoint_rules ec c tiers profiles) p) = true.
+    ok_result ec c (expected_tail ec c e tiers profiles p) p
+      (go cs e (run (S (S f)) cs e) (endpoint_tail ec c tiers profiles) p) = true.
   Proof.
     intros f tiers profiles p Ht Hti Hfs Hw Hd.
     assert (Hu : is_untracked ec = false) by (unfold is_untracked; rewrite Ht; reflexivity).
     assert (Hn : is_normal ec = false) by (unfold is_normal; rewrite Ht; reflexivity).
     assert (Hfw : is_forward ec = true) by (unfold is_forward; rewrite Ht; reflexivity).
-    unfold endpoint_rules, expected. rewrite Ht, Hu. cbn [run negb andb].
-    destruct (ec_admin_up ec); cbn [negb].
-    2:{ rewrite go_deny by reflexivity. cbn [ok_result]. rewrite deny_final_fin, packet_eqb_unmarked_of_unmark; reflexivity. }
+    unfold endpoint_tail, expected_tail, expected_verdict. rewrite Ht, Hu. cbn [negb andb].
     rewrite conntrack_run by exact Hu.
     destruct (ct_in p [CtRelated; CtEstablished]).
     { destruct (ec_allow ec) eqn:Ea; cbn [ok_result]; rewrite Ea.
@@ -432,6 +448,9 @@ Section Endpoint.
       - cbn [pk_mark set_mark]. rewrite (set_accept_has c F). cbn [andb]. apply packet_eqb_unmarked_of_unmark. reflexivity. }
     destruct (ec_ct_invalid ec && ct_in p [CtInvalid]).
     { cbn [ok_result]. rewrite deny_final_fin, packet_eqb_unmarked_of_unmark; reflexivity. }
+    rewrite qos_conn_run.
+    destruct (is_normal ec && ec_qos_conn ec && over_conn c e p).
+    { cbn [ok_result]. apply packet_eqb_unmarked_of_unmark. reflexivity. }
     rewrite (failsafe_run f _ p Hfs).
     rewrite Hn, Hfw, andb_true_r. cbn [app].
     unfold AClearMark, ASetMaskedMark. rewrite go_mark by reflexivity.
